@@ -166,14 +166,23 @@ def run(F, rep, tier):
                 for q in p["ps"]:
                     if q.get("k") == "Lit" and q.get("lit") == "bool":
                         pat.append(q["v"])
-                    else:
+                    elif (q.get("path") or "").endswith("option::Option::Some"):
+                        pat.append(True)        # the fact "is present" matched as an Option: Some(..) = true, None = false
+                    elif (q.get("path") or "").endswith("option::Option::None"):
+                        pat.append(False)
+                    elif q.get("k") in ("Wild", "Bind"):
                         pat.append(None)
+                    else:
+                        pat.append("?")
                 vs = [x.get("path") or x.get("callee") for x, _ in find_hir(arm["b"], lambda x: x.get("k") in ("Path", "Call") and "ItemDefinitionType::" in ((x.get("path") or x.get("callee") or "")))]
                 table.append((pat, vs[0].split("::")[-1] if vs else None))
         if not table:
             rep.missing_anchor(r2, "4-tuple match in item_definition_type")
+        if any("?" in pat for pat, _ in table):
+            rep.undecided(r2, "classification", "the classification match uses patterns other than booleans / Some / None / wildcards")
+            table = None
         import itertools
-        for combo in itertools.product([True, False], repeat=4):
+        for combo in (itertools.product([True, False], repeat=4) if table is not None else ()):
             want = CLASSIFICATION.get(combo, "error")
             if combo[1] and not combo[0]:
                 continue   # a simple FEEL type without a typeRef cannot occur
